@@ -294,7 +294,7 @@ func (f *Frame) applyContract(ct *Contract, fn *ssa.Function, sig *types.Signatu
 			f.frameCheck("*", "", pos, "call "+short)
 		}
 		for _, t := range targets {
-			f.frameCheck(t.heap, t.key, pos, "call "+short)
+			f.frameCheckCond(t.heap, t.key, t.cond, pos, "call "+short)
 		}
 		f.applyHavoc(st, targets, all, f.curGuard)
 	} else {
@@ -388,7 +388,7 @@ func (f *Frame) calleeEnv(ct *Contract, fn *ssa.Function, sig *types.Signature, 
 }
 
 // callTargets computes what a call inside a loop may modify.
-func (f *Frame) callTargets(x ssa.CallInstruction, outside func(ssa.Value) bool) ([]havocTarget, bool) {
+func (f *Frame) callTargets(x ssa.CallInstruction, outside func(ssa.Value) bool, cur *State) ([]havocTarget, bool) {
 	c := f.c
 	cc := x.Common()
 	if b, ok := cc.Value.(*ssa.Builtin); ok {
@@ -397,14 +397,14 @@ func (f *Frame) callTargets(x ssa.CallInstruction, outside func(ssa.Value) bool)
 			if len(cc.Args) > 0 {
 				if sl, ok := cc.Args[0].Type().Underlying().(*types.Slice); ok {
 					h, _ := c.memHeap(sl.Elem())
-					return []havocTarget{{h, ""}, {allocHeap, ""}}, false
+					return []havocTarget{{h, "", ""}, {allocHeap, "", ""}}, false
 				}
 			}
 			return nil, true
 		case "delete":
 			m := cc.Args[0].Type().Underlying().(*types.Map)
 			d, v := c.mapHeaps(m)
-			return []havocTarget{{d, ""}, {v, ""}}, false
+			return []havocTarget{{d, "", ""}, {v, "", ""}}, false
 		}
 		return nil, false
 	}
@@ -441,59 +441,55 @@ func (f *Frame) callTargets(x ssa.CallInstruction, outside func(ssa.Value) bool)
 	}
 	out := []havocTarget{}
 	if !ct.Pure {
-		out = append(out, havocTarget{allocHeap, ""})
+		out = append(out, havocTarget{allocHeap, "", ""})
 	}
-	// evaluate assigns with arguments if all are available outside the loop
-	avail := true
+	// evaluate assigns with the arguments that are available outside the loop;
+	// the others are dummies, and a target whose key mentions a dummy covers
+	// the whole heap
 	var args []Val
-	if cc.IsInvoke() {
-		if !outside(cc.Value) {
-			avail = false
-		} else {
-			args = append(args, f.val(cc.Value))
+	var dummies []string
+	arg := func(v ssa.Value) Val {
+		if outside(v) {
+			if val, ok := f.vals[v]; ok || isConstLike(v) {
+				if !ok {
+					val = f.val(v)
+				}
+				if val.T != "" {
+					return val
+				}
+			}
 		}
+		d := f.dummy(v.Type())
+		dummies = append(dummies, strings.Trim(d.T, "|"))
+		return d
+	}
+	if mc, ok := cc.Value.(*ssa.MakeClosure); ok {
+		if outside(mc) {
+			args = append(args, f.val(mc).Bind...)
+		} else if fn != nil {
+			for _, fv := range fn.FreeVars {
+				d := f.dummy(fv.Type())
+				dummies = append(dummies, strings.Trim(d.T, "|"))
+				args = append(args, d)
+			}
+		}
+	}
+	if cc.IsInvoke() {
+		args = append(args, arg(cc.Value))
 	}
 	for _, a := range cc.Args {
-		if !outside(a) {
-			avail = false
-			break
-		}
-		if avail {
-			args = append(args, f.val(a))
-		}
+		args = append(args, arg(a))
 	}
-	if mc, ok := cc.Value.(*ssa.MakeClosure); ok && avail {
-		if outside(mc) {
-			args = append(append([]Val{}, f.val(mc).Bind...), args...)
-		} else {
-			avail = false
-		}
-	}
+	avail := true
 	var sig *types.Signature = cc.Signature()
 	if fn != nil {
 		sig = fn.Signature
 	}
-	if !avail {
-		// fall back to whole heaps named by the assigns clause: evaluate with fresh dummy arguments
-		args = nil
-		if fn != nil {
-			for _, fv := range fn.FreeVars {
-				args = append(args, f.dummy(fv.Type()))
-			}
-			for _, p := range fn.Params {
-				args = append(args, f.dummy(p.Type()))
-			}
-		} else {
-			if cc.IsInvoke() {
-				args = append(args, f.dummy(cc.Value.Type()))
-			}
-			for _, a := range cc.Args {
-				args = append(args, f.dummy(a.Type()))
-			}
-		}
-	}
 	env := f.calleeEnv(ct, fn, sig, args)
-	env.cur, env.old = f.entry, f.entry
+	if cur == nil {
+		cur = f.entry
+	}
+	env.cur, env.old = cur, cur
 	f.c.suppress++
 	defer func() { f.c.suppress-- }()
 	for _, a := range ct.Assigns {
@@ -505,11 +501,15 @@ func (f *Frame) callTargets(x ssa.CallInstruction, outside func(ssa.Value) bool)
 			return nil, true
 		}
 		for _, t := range ts {
-			if !avail {
-				t.key = ""
+			for _, d := range dummies {
+				if strings.Contains(t.key, d) || strings.Contains(t.cond, d) {
+					t.key = ""
+					t.cond = ""
+				}
 			}
 			out = append(out, t)
 		}
+		_ = avail
 	}
 	return out, false
 }
@@ -541,52 +541,52 @@ func (f *Frame) bodyTargets(fn *ssa.Function, depth int) ([]havocTarget, bool) {
 					st := a.X.Type().Underlying().(*types.Pointer).Elem()
 					ft := st.Underlying().(*types.Struct).Field(a.Field).Type()
 					if isStruct(ft) {
-						c.structHeaps(ft, func(h string) { out = append(out, havocTarget{h, ""}) })
+						c.structHeaps(ft, func(h string) { out = append(out, havocTarget{h, "", ""}) })
 					} else {
 						h, _ := c.fieldHeap(st, a.Field)
-						out = append(out, havocTarget{h, ""})
+						out = append(out, havocTarget{h, "", ""})
 					}
 				case *ssa.IndexAddr:
 					switch u := a.X.Type().Underlying().(type) {
 					case *types.Slice:
 						h, _ := c.memHeap(u.Elem())
-						out = append(out, havocTarget{h, ""})
+						out = append(out, havocTarget{h, "", ""})
 					case *types.Pointer:
 						h, _ := c.memHeap(u.Elem().Underlying().(*types.Array).Elem())
-						out = append(out, havocTarget{h, ""})
+						out = append(out, havocTarget{h, "", ""})
 					}
 				default:
 					switch u := pt.Elem().Underlying().(type) {
 					case *types.Struct:
-						c.structHeaps(pt.Elem(), func(h string) { out = append(out, havocTarget{h, ""}) })
+						c.structHeaps(pt.Elem(), func(h string) { out = append(out, havocTarget{h, "", ""}) })
 					case *types.Array:
 						h, _ := c.memHeap(u.Elem())
-						out = append(out, havocTarget{h, ""})
+						out = append(out, havocTarget{h, "", ""})
 					default:
 						h, _ := c.cellHeap(pt.Elem())
-						out = append(out, havocTarget{h, ""})
+						out = append(out, havocTarget{h, "", ""})
 					}
 				}
 			case *ssa.MapUpdate:
 				d, v := c.mapHeaps(x.Map.Type().Underlying().(*types.Map))
-				out = append(out, havocTarget{d, ""}, havocTarget{v, ""})
+				out = append(out, havocTarget{d, "", ""}, havocTarget{v, "", ""})
 			case *ssa.Alloc, *ssa.MakeSlice, *ssa.MakeMap, *ssa.MakeClosure:
-				out = append(out, havocTarget{allocHeap, ""})
+				out = append(out, havocTarget{allocHeap, "", ""})
 				if a, ok := x.(*ssa.Alloc); ok {
 					et := a.Type().(*types.Pointer).Elem()
 					switch u := et.Underlying().(type) {
 					case *types.Struct:
-						c.structHeaps(et, func(h string) { out = append(out, havocTarget{h, ""}) })
+						c.structHeaps(et, func(h string) { out = append(out, havocTarget{h, "", ""}) })
 					case *types.Array:
 						h, _ := c.memHeap(u.Elem())
-						out = append(out, havocTarget{h, ""})
+						out = append(out, havocTarget{h, "", ""})
 					default:
 						h, _ := c.cellHeap(et)
-						out = append(out, havocTarget{h, ""})
+						out = append(out, havocTarget{h, "", ""})
 					}
 				}
 			case ssa.CallInstruction:
-				ts, all := f.callTargets(x, func(ssa.Value) bool { return false })
+				ts, all := f.callTargets(x, func(ssa.Value) bool { return false }, nil)
 				if all {
 					return nil, true
 				}
@@ -764,6 +764,9 @@ func (f *Frame) doAppend(cc *ssa.CallCommon, args []Val, rt types.Type, st *Stat
 		for _, a := range c.frameAllowed[h] {
 			alts = append(alts, eq(sBase, a))
 		}
+		for _, a := range c.frameAllowedCond[h] {
+			alts = append(alts, and(a[1], eq(sBase, a[0])))
+		}
 		f.oblige("frame", f.srcKey(pos, "append")+" "+h, or(alts...), pos, "in-place append outside the assigns clause")
 	}
 	c.heapSet(st, h, ite(fits, "(store "+mem+" "+sBase+" "+inplace+")", "(store "+mem+" "+newBase+" "+realloc+")"))
@@ -809,4 +812,12 @@ func (f *Frame) doCopy(args []Val, rt types.Type, st *State, pos token.Pos) Val 
 		return Val{T: n, Typ: rt}
 	}
 	return Val{T: n, Typ: rt}
+}
+
+func isConstLike(v ssa.Value) bool {
+	switch v.(type) {
+	case *ssa.Const, *ssa.Global, *ssa.Function:
+		return true
+	}
+	return false
 }
